@@ -107,6 +107,26 @@ func PathLits(p *Prog, path []*ssa.BasicBlock, atomOf AtomFn) []Lit {
 			continue
 		}
 		cond, pos := condStrip(ifi.Cond)
+		// a short-circuit `a && b` / `a || b` reaches the branch as a phi of a constant and b: resolve it
+		// along this very path (through nested negations)
+		for k := 0; k < 8; k++ {
+			rc := ResolveOnPath(cond, path[:i+1])
+			if rc == cond {
+				break
+			}
+			c2, p2 := condStrip(rc)
+			cond = c2
+			if !p2 {
+				pos = !pos
+			}
+		}
+		if kc, isC := constBool(cond); isC {
+			// decided by the path itself: the other edge is infeasible
+			if (kc == pos) != taken {
+				lits = append(lits, Lit{"#infeasible", true}, Lit{"#infeasible", false})
+			}
+			continue
+		}
 		name, ok := atomOf(cond)
 		if !ok {
 			name = "?" + p.InstrPos(ifi) + ":" + cond.String()
